@@ -7,7 +7,7 @@ import harness
 from facts import (norm, call_name, short, subnodes, lit_value, matches_on, arm_variants, field_reads, peel_ty,
                    lit_table, matches_on_type, str_lits_in)
 from prov import Prov, has_field, has_call
-from templates import (field_coverage, enclosing_contexts, variant_table, arm_value, recursion_discipline,
+from templates import (stateful_guards, memo_key_gaps, constant_params, field_coverage, enclosing_contexts, variant_table, arm_value, recursion_discipline,
                        LOSSY_OR_REORDERING)
 
 CK = "nitrogql_checker::"
@@ -430,8 +430,88 @@ def r03i(P, R):
                     "a literal is accepted for output kind %s" % k, loc=iv.loc())
 
 
-RULES = [("R03-a", r03a), ("R03-b", r03b), ("R03-c", r03c), ("R03-d", r03d), ("R03-e", r03e), ("R03-f", r03f),
-         ("R03-g", r03g), ("R03-h", r03h), ("R03-i", r03i)]
+def r03j(P, R):
+    """document-scoped rules: the lone-anonymous count ranges over all operations; no validation step is skipped on the strength
+    of mutable state whose key omits an input of the skipped work"""
+    e = entry(P)
+    pv = Prov(e)
+    sites = [i for i, (x, _) in enumerate(e.nodes()) if x.get("k") == "Path" and norm(x.get("ctor_of", "")) == ERR + "::UnNamedOperationMustBeSingle"]
+    R.floor("R03-j", "UnNamedOperationMustBeSingle sites", len(sites), 1)
+    OD = A + "operation::OperationDefinition"
+    for i in sites:
+        ctx = enclosing_contexts(e, i)
+        ifs = [c for c in ctx if c[0] == "if-then"]
+        arms = [c for c in ctx if c[0] == "arm" and c[1] is not None]
+        anon = any(has_field(pv.atoms(m["scrut"]), OD, "name") and short(arm["pat"].get("def", "") or arm["pat"].get("ctor_of", "")).endswith("None") for _, m, arm in arms)
+        R.check("R03-j", "lone-anonymous:branch", anon, "reported from the `name == None` arm",
+                "UnNamedOperationMustBeSingle is not raised from the anonymous-operation arm", loc=e.loc())
+        if not ifs:
+            R.violated("R03-j", "lone-anonymous:guard", "UnNamedOperationMustBeSingle is not guarded by a count comparison", loc=e.loc())
+            continue
+        cond = ifs[0][1]["cond"]
+        a = pv.atoms(cond)
+        # transitive source expressions of the condition (locals followed to their initialisers)
+        nodes, todo, seen = [], [cond], set()
+        while todo:
+            n = todo.pop()
+            for y in subnodes(n):
+                nodes.append(y)
+                if y.get("k") == "Path" and "local" in y and y["local"] not in seen:
+                    seen.add(y["local"])
+                    todo.extend(src for src, _ in pv.src.get(y["local"], []) if src is not None)
+        pats = {norm(y.get("ctor_of") or y.get("def") or "").split("::")[-1] for y in nodes if y.get("k") in ("TupleStruct", "Struct", "Path") and (A + "operation::ExecutableDefinition") in norm(y.get("ctor_of") or y.get("def") or "")}
+        op_fields = sorted(x[2] for x in a if x[0] == "field" and x[1] == OD)
+        lits = {str(x[1]) for x in a if x[0] == "lit"}
+        ok = (cond.get("k") == "Binary" and cond.get("op") in ("!=", ">") and "1" in lits and has_call(a, "count")
+              and has_field(a, A + "operation::OperationDocument", "definitions") and pats == {"OperationDefinition"} and not op_fields)
+        R.check("R03-j", "lone-anonymous:count", ok,
+                "anonymous operation is reported unless the count of *all* OperationDefinition entries of document.definitions is 1",
+                "the guard of UnNamedOperationMustBeSingle is `%s` over a count that matches %s and reads OperationDefinition fields %s: "
+                "it is not the number of all operations in the document, so an anonymous operation next to other operations can pass"
+                % (cond.get("op"), sorted(pats), op_fields), loc=e.loc())
+    # memoisation / state-dependent skipping
+    scope = [P.fns[p] for p in checker_scope(P) if p.startswith((CK, "<" + CK))]
+    const = constant_params(P, e, scope)
+    n_guards = 0
+    for f in scope:
+        sg = stateful_guards(f)
+        if not sg:
+            continue
+        fpv = Prov(f)
+        for i, g, t, blocks in sg:
+            n_guards += 1
+            missing, key, holder = memo_key_gaps(f, g, fpv)
+            cnames = {fpv.params.get(f.params[j]["local"]) for j in const.get(f.path, ()) if f.params[j].get("k") == "Binding"}
+            missing = [m for m in missing if m not in cnames]
+            exits = any(y.get("k") in ("Ret", "Continue", "Break") for b in blocks for y in subnodes(b))
+            ident = "state-guard:%s" % short(f.path)
+            if missing:
+                R.violated("R03-j", ident, "%s branches on mutable state (%s) keyed by %s%s; the skipped validation also depends on %s, "
+                           "so a construct can escape checking because a different context was checked first"
+                           % (f.path, t[:60], key or "nothing", " and exits early" if exits else "", missing), loc=f.loc())
+            else:
+                R.holds("R03-j", ident, "state-dependent guard whose key covers every non-constant input (%s)" % key)
+    R.count("state-dependent guards in the checker", n_guards)
+    R.holds("R03-j", "stateless-walk", "%d checker functions scanned; %d guards read interior-mutable or &mut state" % (len(scope), n_guards))
+    # positive control
+    import harness as H
+    from facts import Program
+    SC = Program(H.selfcheck_facts())
+    mf = SC.fn("selfcheck::memo_walk")
+    sg = stateful_guards(mf)
+    miss = memo_key_gaps(mf, sg[0][1], Prov(mf))[0] if sg else None
+    R.check("R03-pc", "memo-detector", bool(sg) and miss == ["vars"], "the memo-key detector reports selfcheck::memo_walk (missing: vars)",
+            "positive control not reported: %s" % (miss,))
+
+
+def _r04c(P, R):
+    # AreTypesCompatible table (shared with C04): a too-permissive row is a C03 violation, a too-strict one a C04 violation
+    from c04 import r04c
+    r04c(P, R)
+
+
+RULES = [("R03-a", r03a), ("R03-b", r03b), ("R03-c", r03c), ("R03-d", r03d), ("R03-e", r03e), ("R03-f", r03f), ("R03-j", r03j),
+         ("R03-g", r03g), ("R03-h", r03h), ("R03-i", r03i), ("R04-c", _r04c)]
 EXPLANATION = (
     "`check` applies every implemented rule at every position it governs, decided for all documents: (R03-a) non-interference — "
     "every content field of the executable AST is read by a function reachable from check_operation_document and the sum types are "
